@@ -97,6 +97,11 @@ def r2_3(ctx, R):
     for (bb, t, v, e) in sets:
         facts_here = vf.get(bb, frozenset())
         occupied_known = any(var == occ for (_, var) in facts_here)
+        if not occupied_known:
+            # path-sensitive: on every feasible path arriving here the slot is known Occupied (e.g. through `matches!`)
+            from lib_flow import arrival_knowledge
+            ak = arrival_knowledge(rem, fl, bb)
+            occupied_known = bool(ak) and all(any(v == occ for v in k.values()) for k in ak)
         ctx.ob("R2.3", rem, "REMOVE:effects-only-on-occupied-slot", occupied_known, rem.loc(bb),
                "facts at Pin::set: %s" % sorted(facts_here))
         # new free slot links to the old head; head becomes the key
@@ -181,6 +186,8 @@ def r2_1(ctx, R, only_in=None):
         # the value returned on that path carries the same i and x
         okv = False
         for rb, e in returned_exprs(ctx, b):
+            if e[0] == "call" and e[3] == dbb:
+                okv = True   # the drained result is returned as it is (same index, same output)
             if rb in region and e[0] == "agg" and e[1].endswith("Poll::Ready"):
                 inner = e[2][0]
                 if inner[0] == "agg" and inner[1].endswith("Option::Some"):
@@ -541,16 +548,56 @@ def r2_7(ctx, R, counter, head):
             ctx.ob("R2.7", b, "empty-constructor-free-list", ok_chain and ok_rng and ok_hc, b.loc(rb),
                    "slots <- %s; range %s; head=%s counter=%s" % (" <- ".join(chain), expr_str(rng) if rng else None, expr_str(h) if h else None, expr_str(c) if c else None))
     ctx.floor("R2.7", "empty-constructors", n, 1)
-    # the lookup used by INSERT/REMOVE/ACCESSOR
-    ins = R.insert_fn
-    fl = ctx.flow(ins)
+    # the lookup used by INSERT/REMOVE/ACCESSOR: through one shared helper, or written out / inlined in place
     lookups = set()
-    for b in (R.insert_fn, R.remove_fn) + tuple(R.accessor_fns):
+    users = (R.insert_fn, R.remove_fn) + tuple(R.accessor_fns)
+    for b in users:
         for bb, t, fn in b.calls():
             cb = callee_body(ctx.facts, fn)
             if cb is not None and cb in R.slotmap_methods and re.match(r"core::option::Option<core::pin::Pin<&mut %s<" % re.escape(R.slot_enum[0]), cb.locals[0]):
                 lookups.add(cb.path)
-    ctx.ob("R2.7", "<crate>", "one-shared-slot-lookup", len(lookups) == 1, "", str(sorted(lookups)))
+    ctx.ob("R2.7", "<crate>", "at-most-one-shared-slot-lookup-helper", len(lookups) <= 1, "", str(sorted(lookups)))
+
+    def lookup_sites(b, keys_ok):
+        """slice accesses on the slots field in b: [(bb, ok, detail)]"""
+        lfl = ctx.flow(b)
+        out = []
+        for bb, t, fn in b.calls():
+            nm = fn_name(fn) if fn else ""
+            if fn is None or b.is_cleanup(bb) or not t["args"]:
+                continue
+            if not re.search(r"core::slice::<impl \[T\]>::(get_mut|get|get_unchecked_mut|get_unchecked)$|core::ops::Index(Mut)?::index(_mut)?$|core::slice::index::", nm or ""):
+                continue
+            recv = lfl.operand_expr(t["args"][0])
+            if ("." + slots_field) not in repr(recv):
+                continue
+            key = strip_refs(lfl.operand_expr(t["args"][1])) if len(t["args"]) > 1 else ("unknown",)
+            ok = bool(re.search(r"::get_mut$", nm)) and keys_ok(key)
+            # re-pinned: the only consumer of the element reference is Pin::new_unchecked
+            out.append((bb, ok, "%s(%s) on .%s" % (nm.split("::")[-1], expr_str(key), slots_field)))
+        # direct index projections on the slots (slots[i]) are unchecked-by-rule accesses
+        for bb in range(b.n):
+            if b.is_cleanup(bb):
+                continue
+            for s_ in b.stmts(bb):
+                if s_["k"] == "assign" and any(e["k"] in ("index", "constindex") for e in s_["place"]["p"]) and ("." + slots_field) in repr(lfl.place_expr(s_["place"])):
+                    out.append((bb, False, "indexed store into .%s" % slots_field))
+        return out
+    n_sites = 0
+    for b in users:
+        if b is R.insert_fn:
+            keys_ok = lambda k: k[0] == "proj" and k[2] and k[2][-1] == head
+            want = "self" + head
+        else:
+            keys_ok = lambda k: k[0] == "param"
+            want = "key parameter"
+        sites = lookup_sites(b, keys_ok)
+        via = [lp for lp in lookups if any(callee_body(ctx.facts, fn) is not None and callee_body(ctx.facts, fn).path == lp for _, _, fn in b.calls())]
+        for bb, ok, det in sites:
+            n_sites += 1
+            ctx.ob("R2.7", b, "lookup=slots.get_mut(%s)@%s" % (want, _site_label(b, bb)), ok, b.loc(bb), det)
+        ctx.ob("R2.7", b, "reaches-its-slot-through-the-checked-lookup", bool(sites) or bool(via), d_loc(b),
+               "%d in-place lookups, helper %s" % (len(sites), via))
     for lp in lookups:
         b = ctx.facts.bodies[lp]
         lfl = ctx.flow(b)
@@ -567,7 +614,18 @@ def r2_7(ctx, R, counter, head):
                         recv = repr(gm[0][2][0])
                         ok = key[0] == "param" and ("." + slots_field) in recv
                         det = "get_mut(%s) on .%s" % (expr_str(key), slots_field)
+        n_sites += 1
         ctx.ob("R2.7", b, "lookup=slots.get_mut(key)-repinned", ok, d_loc(b), det)
+        # callers pass the right key
+        for u in users:
+            ufl = ctx.flow(u)
+            for bb, t, fn in u.calls():
+                cb = callee_body(ctx.facts, fn)
+                if cb is not None and cb.path == lp:
+                    key = strip_refs(ufl.operand_expr(t["args"][-1]))
+                    okk = (key[0] == "proj" and key[2] and key[2][-1] == head) if u is R.insert_fn else key[0] == "param"
+                    ctx.ob("R2.7", u, "lookup-key@%s" % _site_label(u, bb), okk, u.loc(bb), expr_str(key))
+    ctx.floor("R2.7", "slot-lookups", n_sites, 1)
 
 
 COLLECTIONS = r"^(<)?(futures_unordered_bounded|futures_unordered|futures_ordered_bounded|futures_ordered|merge_bounded|merge_unbounded)::"
